@@ -215,19 +215,31 @@ def endOfHistory (s : St) : St :=
   let s1 := historyForward s ((10 : Int) ^ 100)
   goToHistory s1 (s1.work.length - 1)
 
-/-- `Buffer.auto_up(count, go_to_start_of_line_if_history_changes)` without completion menu
-    and without selection; `none` = AssertionError from `cursor_up` -/
-def autoUp (s : St) (count : Int) (goStart : Bool) : Option St :=
+/-- the body of `Buffer.auto_up` for `count ≥ 1`, without completion menu and without
+    selection; `none` = AssertionError from `cursor_up` (unreachable for `count ≥ 1`) -/
+def autoUpPos (s : St) (count : Int) (goStart : Bool) : Option St :=
   if row s.text s.cur > 0 then cursorUp s count
   else
     let s1 := historyBackward s count
     some (if goStart then home s1 else s1)
 
-def autoDown (s : St) (count : Int) (goStart : Bool) : Option St :=
+/-- the body of `Buffer.auto_down` for `count ≥ 1` -/
+def autoDownPos (s : St) (count : Int) (goStart : Bool) : Option St :=
   if row s.text s.cur + 1 < lineCount s.text then cursorDown s count
   else
     let s1 := historyForward s count
     some (if goStart then home s1 else s1)
+
+/-- `Buffer.auto_up(count, go_to_start_of_line_if_history_changes)`: a negative count moves in
+    the other direction, zero does nothing -/
+def autoUp (s : St) (count : Int) (goStart : Bool) : Option St :=
+  if count ≤ 0 then (if count < 0 then autoDownPos s (-count) goStart else some s)
+  else autoUpPos s count goStart
+
+/-- `Buffer.auto_down(count, go_to_start_of_line_if_history_changes)` -/
+def autoDown (s : St) (count : Int) (goStart : Bool) : Option St :=
+  if count ≤ 0 then (if count < 0 then autoUpPos s (-count) goStart else some s)
+  else autoDownPos s count goStart
 
 /-! ### validation, accept, reset -/
 
